@@ -682,6 +682,46 @@ fn c13_sync_sequences(rep: &mut Report, tier: Tier) {
         }
         bad
     });
+    // periodic re-delivery: consensus re-issues the same Synchronize command every p ms (the same
+    // block reaching it again) while the first target stays silent: the retry with other peers must
+    // still happen once the request is older than the retry delay
+    let mut redelivery = 0u64;
+    for period in [300u64, 600, 900, 1_500] {
+        for l in 0..lists.len() {
+            redelivery += 1;
+            let params = mempool::Parameters { gc_depth: 50, sync_retry_delay: 1_000, sync_retry_nodes: 3, batch_size: 1_000_000, max_batch_delay: 1_000_000_000 };
+            let mut node = MempoolNode::boot(&w, 0, params);
+            let mut asked: Vec<HashSet<usize>> = vec![HashSet::new(), HashSet::new()];
+            let mut t = 0u64;
+            while t < 6_000 {
+                let ds: Vec<Digest> = lists[l].iter().map(|x| digests[*x].clone()).collect();
+                let target = w.name(1);
+                let tx = node.tx_cmd.clone();
+                node.rt.block_on(async move { tx.send(ConsensusMempoolMessage::Synchronize(ds, target)).await.unwrap() });
+                node.rt.run_for(period);
+                t += period;
+                node.poll_conns();
+                for ep in &node.outs {
+                    let peer = (ep.addr.port() - MEMPOOL_PORT0) as usize;
+                    for f in ep.read_frames() {
+                        if let Ok(MempoolMessage::BatchRequest(ds, _)) = bincode::deserialize::<MempoolMessage>(&f) {
+                            for d in ds {
+                                if let Some(x) = digests.iter().position(|y| *y == d) {
+                                    asked[x].insert(peer);
+                                }
+                            }
+                        }
+                    }
+                }
+            }
+            for x in &lists[l] {
+                if asked[*x].len() < 2 {
+                    rep.violation("e2e:sync-no-retry-under-redelivery".into(), format!("[mempool synchronizer] the Synchronize command for batches {:?} was re-issued every {} ms for 6 s while the first target stayed silent: batch {} was only ever requested from {:?}, never from other peers (retry delay 1000 ms)", lists[l], period, x, asked[*x]), json!({"engine":"seq-mempool-sync","redelivery_period_ms":period,"list":lists[l]}));
+                }
+            }
+        }
+    }
+    rep.set("sync_redelivery_patterns", json!(redelivery));
     let mut n_bad = 0;
     for (i, b) in results.iter().enumerate() {
         if let Some((sig, what)) = b {
@@ -767,6 +807,9 @@ pub struct ScByz {
     stale_genesis: bool,
     claim_low: bool,
     vote_all: bool,
+    /// frames from this honest node to the other honest nodes take 1.3 timeouts during the first
+    /// 3 s (a slow sender: others may enter a round through a TC before its proposal arrives)
+    hold: Option<usize>,
 }
 
 fn run_byz(sc: &ScByz) -> (Vec<(String, String)>, Value) {
@@ -790,7 +833,14 @@ fn run_byz(sc: &ScByz) -> (Vec<(String, String)>, Value) {
     let mut created = 0u64;
     let horizon = 14_000u64;
     let subset = |mask: u8| -> Vec<usize> { honest.iter().enumerate().filter(|(k, _)| mask & (1 << k) != 0).map(|(_, h)| *h).collect() };
-    let mut policy = |_f: &FrameInfo| -> Verdict { Verdict::Deliver(DELTA) };
+    let hold = sc.hold;
+    let mut policy = |f: &FrameInfo| -> Verdict {
+        if Some(f.src) == hold && f.now < 3_000 {
+            Verdict::Deliver(DELTA_T * 13 / 10)
+        } else {
+            Verdict::Deliver(DELTA)
+        }
+    };
     while sim.now < horizon {
         let mut step = G;
         if let Some(d) = sim.next_due() {
@@ -971,7 +1021,12 @@ pub fn c01_strategies(rep: &mut Report, tier: Tier) {
                             if tier == Tier::Quick && !vote_all && !claim_low {
                                 continue;
                             }
-                            grid.push(ScByz { z, s1, s2, stale_genesis, claim_low, vote_all });
+                            grid.push(ScByz { z, s1, s2, stale_genesis, claim_low, vote_all, hold: None });
+                            if vote_all && claim_low {
+                                for h in (0..4usize).filter(|h| *h != z) {
+                                    grid.push(ScByz { z, s1, s2, stale_genesis, claim_low, vote_all, hold: Some(h) });
+                                }
+                            }
                         }
                     }
                 }
@@ -989,7 +1044,7 @@ pub fn c01_strategies(rep: &mut Report, tier: Tier) {
         }
         for (sig, what) in bad {
             if !reported || sig != "agreement:conflicting-commits" {
-                rep.violation(sig.clone(), format!("[byzantine strategy {:?}] {}", grid[i], what), json!({"engine":"sim","check":"c01-strategies","scenario":format!("{:?}", grid[i]),"params":json!({"z":grid[i].z,"s1":grid[i].s1,"s2":grid[i].s2,"stale_genesis":grid[i].stale_genesis,"claim_low":grid[i].claim_low,"vote_all":grid[i].vote_all})}));
+                rep.violation(sig.clone(), format!("[byzantine strategy {:?}] {}", grid[i], what), json!({"engine":"sim","check":"c01-strategies","scenario":format!("{:?}", grid[i]),"params":json!({"z":grid[i].z,"s1":grid[i].s1,"s2":grid[i].s2,"stale_genesis":grid[i].stale_genesis,"claim_low":grid[i].claim_low,"vote_all":grid[i].vote_all,"hold":grid[i].hold})}));
             }
             if sig == "agreement:conflicting-commits" {
                 reported = true;
@@ -1000,13 +1055,13 @@ pub fn c01_strategies(rep: &mut Report, tier: Tier) {
     rep.set("byzantine_strategy_scenarios", json!(grid.len()));
     rep.set("byzantine_strategy_distinct_outcomes", json!(outcomes.len()));
     rep.set("byzantine_strategy_scenarios_with_stale_proposal", json!(with_stale));
-    rep.set("byzantine_strategy_grid", json!("Byzantine member position x subset of honest nodes that receive its regular proposal (QC formed from the votes it received + its own) x subset that receive a second, stale proposal for the same round (on the genesis QC or the second-highest known QC, justified by a TC it assembles from the honest timeouts plus its own timeout claiming the lowest or highest QC) x votes for everything | never votes; the strategy is applied in every round the member leads; it answers sync requests; three real honest nodes, natural timers (1000 ms), 14 virtual seconds, one deterministic schedule per grid point; oracle: all blocks committed by honest nodes pairwise on one chain"));
+    rep.set("byzantine_strategy_grid", json!("Byzantine member position x subset of honest nodes that receive its regular proposal (QC formed from the votes it received + its own) x subset that receive a second, stale proposal for the same round (on the genesis QC or the second-highest known QC, justified by a TC it assembles from the honest timeouts plus its own timeout claiming the lowest or highest QC) x votes for everything | never votes x (for the voting, low-claim strategies) one honest node being a slow sender for the first 3 s (its frames take 1.3 timeouts, so the others can enter a round through a TC before its proposal arrives); the strategy is applied in every round the member leads; it answers sync requests; three real honest nodes, natural timers (1000 ms), 14 virtual seconds, one deterministic schedule per grid point; oracle: all blocks committed by honest nodes pairwise on one chain"));
     rep.sample(json!({"byzantine_strategy": format!("{:?}", grid[grid.len() / 3]), "outcome": results[grid.len() / 3].1}));
 }
 
 pub fn debug_byz() {
     for (s1, s2) in [(1u8, 6u8), (2, 5), (4, 3), (1, 7)] {
-        let sc = ScByz { z: 3, s1, s2, stale_genesis: true, claim_low: true, vote_all: true };
+        let sc = ScByz { z: 3, s1, s2, stale_genesis: true, claim_low: true, vote_all: true, hold: None };
         let (bad, info) = run_byz(&sc);
         println!("{:?} -> {} {:?}", sc, info, bad);
     }
@@ -1045,7 +1100,7 @@ pub fn replay(prop: &str, v: &Value) -> i32 {
             lost_batch: if p["lost_batch"].is_null() { None } else { Some((u(&p["lost_batch"][0]) as usize, u(&p["lost_batch"][1]) as usize)) },
             mute_author: p["mute_author"] == true,
         }),
-        "c01-strategies" => run_byz(&ScByz { z: u(&p["z"]) as usize, s1: u(&p["s1"]) as u8, s2: u(&p["s2"]) as u8, stale_genesis: p["stale_genesis"] == true, claim_low: p["claim_low"] == true, vote_all: p["vote_all"] == true }),
+        "c01-strategies" => run_byz(&ScByz { z: u(&p["z"]) as usize, s1: u(&p["s1"]) as u8, s2: u(&p["s2"]) as u8, stale_genesis: p["stale_genesis"] == true, claim_low: p["claim_low"] == true, vote_all: p["vote_all"] == true, hold: p["hold"].as_u64().map(|x| x as usize) }),
         other => {
             eprintln!("this replay file has no re-runnable scenario (check = {:?})", other);
             return 2;
